@@ -338,6 +338,17 @@ class PosBase(np.ndarray):
             if o() is not None:
                 o()._clear_dependent_caches(seen)
 
+    def _link_shared_memory(self, source):
+        """This array is made from `source`: link it with every position array in the chain it uses the memory of
+
+        NumPy makes views (`view`, `reshape`, `.T`, `arr[...]`, `arr[:, :]`, `np.squeeze`, ...) without passing through
+        `__getitem__`. An item assignment to either array changes the contents of both: both caches have to go.
+        """
+        while source is not None:
+            if isinstance(source, PosBase) and source is not self and np.may_share_memory(self, source):
+                source._share_memory_with(self)
+            source = getattr(source, "base", None)
+
     def _share_memory_with(self, rows):
         """Rows obtained by basic indexing are a view of this array: changing one changes the other"""
         rows.add_dependency(self)
@@ -527,6 +538,7 @@ class PositionArray(PosBase):
             )
 
         obj = np.asarray(val, dtype=float, order="C").view(cls)
+        obj._link_shared_memory(val)
         obj.system = cls.system
         obj.ellipsoid = ellipsoid
         for attr in cls._attributes():
@@ -550,6 +562,8 @@ class PositionArray(PosBase):
 
         if self.ndim > 2:
             raise ValueError(f"{type(self).__name__!r} must be a 1- or 2-dimensional array with {num_columns} columns")
+
+        self._link_shared_memory(obj)
 
         # Copy attributes from the original object
         self.system = getattr(obj, "system", None)
@@ -974,6 +988,7 @@ class PositionDeltaArray(PosBase):
             )
 
         obj = np.asarray(val, dtype=float, order="C").view(cls)
+        obj._link_shared_memory(val)
         obj.system = cls.system
         obj.ref_pos = ref_pos
         for attr in cls._attributes():
@@ -997,6 +1012,8 @@ class PositionDeltaArray(PosBase):
 
         if self.ndim > 2:
             raise ValueError(f"{type(self).__name__!r} must be a 1- or 2-dimensional array with {num_columns} columns")
+
+        self._link_shared_memory(obj)
 
         # Copy attributes from the original object
         self.system = getattr(obj, "system", None)
@@ -1327,6 +1344,7 @@ class VelocityArray(PosBase):
             )
 
         obj = np.asarray(val, dtype=float, order="C").view(cls)
+        obj._link_shared_memory(val)
         obj.system = cls.system
         # Reference position needed to make conversions to other systems
         obj.ref_pos = ref_pos
@@ -1351,6 +1369,8 @@ class VelocityArray(PosBase):
 
         if self.ndim > 2:
             raise ValueError(f"{type(self).__name__!r} must be a 1- or 2-dimensional array with {num_columns} columns")
+
+        self._link_shared_memory(obj)
 
         # Copy attributes from the original object
         self.system = getattr(obj, "system", None)
@@ -1400,6 +1420,7 @@ class VelocityDeltaArray(PosBase):
             )
 
         obj = np.asarray(val, dtype=float, order="C").view(cls)
+        obj._link_shared_memory(val)
         obj.system = cls.system
         # Reference position needed to make conversions to other systems
         obj.ref_pos = ref_pos
@@ -1424,6 +1445,8 @@ class VelocityDeltaArray(PosBase):
 
         if self.ndim > 2:
             raise ValueError(f"{type(self).__name__!r} must be a 1- or 2-dimensional array with {num_columns} columns")
+
+        self._link_shared_memory(obj)
 
         # Copy attributes from the original object
         self.system = getattr(obj, "system", None)
@@ -1518,6 +1541,7 @@ class PosVelArray(PositionArray):
             else:
                 val = self.val[:, 0:3]
             self._cache["pos"] = _SYSTEMS["PositionArray"][self.system](val, ellipsoid=self.ellipsoid, **attrs)
+            self._cache["pos"]._link_shared_memory(self)
         return self._cache["pos"]
 
     @property
@@ -1529,6 +1553,7 @@ class PosVelArray(PositionArray):
             else:
                 val = self.val[:, 3:6]
             self._cache["vel"] = _SYSTEMS["VelocityArray"][self.system](val, ref_pos=self.pos, **attrs)
+            self._cache["vel"]._link_shared_memory(self)
         return self._cache["vel"]
 
     @property
@@ -1745,6 +1770,7 @@ class PosVelDeltaArray(PositionDeltaArray):
             else:
                 val = self.val[:, 0:3]
             self._cache["pos"] = _SYSTEMS["PositionDeltaArray"][self.system](val, ref_pos=self.ref_pos, **attrs)
+            self._cache["pos"]._link_shared_memory(self)
         return self._cache["pos"]
 
     @property
@@ -1756,6 +1782,7 @@ class PosVelDeltaArray(PositionDeltaArray):
             else:
                 val = self.val[:, 3:6]
             self._cache["vel"] = _SYSTEMS["VelocityDeltaArray"][self.system](val, ref_pos=self.ref_pos, **attrs)
+            self._cache["vel"]._link_shared_memory(self)
         return self._cache["vel"]
 
     def __sub__(self, other):
